@@ -57,7 +57,7 @@ def d1_d2(chk: Check) -> None:
     chk.analysed(fi)
     calls = [n for n in walk_local(fi.node) if isinstance(n, ast.Call) and
              src(n.func).endswith("._delete_nodes")]
-    loops = [n for n in fi.node.body if isinstance(n, ast.For) and
+    loops = [n for n in walk_local(fi.node) if isinstance(n, ast.For) and
              isinstance(n.iter, ast.Call) and any(
                  isinstance(c, ast.Call) and
                  isinstance(c.func, ast.Attribute) and c.func.attr == "append"
@@ -91,7 +91,26 @@ def d1_d2(chk: Check) -> None:
              if isinstance(x, (ast.Break, ast.Continue, ast.If))]
     arg_ok = gathered and call.args and \
         src(call.args[0]) == src(gathered[0].func.value)  # type: ignore
-    if not inside and call.lineno > loop.lineno and arg_ok and not early:
+    # ... and only when the gathering has *completed*: a deletion placed in
+    # a `finally:` / `except:` block also runs when the query raised half way
+    # (a refused root, a type mismatch further along the path), deleting
+    # the matches found so far although the call as a whole failed
+    cleanup = None
+    for a in ancestors(call):
+        pa = parent(a) if not isinstance(a, ast.Module) else None
+        if isinstance(pa, ast.Try) and isinstance(a, ast.stmt) and \
+                a in pa.finalbody:
+            cleanup = "finally"
+        if isinstance(a, ast.ExceptHandler):
+            cleanup = "except"
+    if cleanup:
+        chk.fail("C04-D1", fi, call, src(call),
+                 "the deletion runs in a `{}:` block: when the query raises "
+                 "after some matches (or the caller abandons the generator) "
+                 "the nodes gathered so far are deleted although the "
+                 "operation failed -- a refused or impossible delete must "
+                 "change nothing".format(cleanup))
+    elif not inside and call.lineno > loop.lineno and arg_ok and not early:
         chk.ok("C04-D1", fi, call, src(call),
                "called once after the loop that appends every match to "
                "`{}`".format(src(call.args[0])))
@@ -984,6 +1003,8 @@ def run(chk: Check) -> None:
     d10_at_most_once(chk)
     from rules.shared import shared_state_rule
     shared_state_rule(chk, "C04-D11", ("yamlpath/processor.py",), 30)
+    from rules.shared import merge_identity_rule
+    merge_identity_rule(chk, "C04-D12", ("yamlpath/processor.py",), 3)
     d2b_ascending_gather(chk)
     from rules.c06 import falsy_rule
     falsy_rule(chk, "C04-D8", "yamlpath/processor.py", 30,
